@@ -31,7 +31,7 @@ Proof.
 Qed.
 
 Ltac unf_set := unfold unlock, lock, put_obj, idx_add, idx_del, unmap, set_objs, set_next, set_cmap, set_idx, set_reg, set_wl, set_cuser in *.
-Ltac red_g := cbn [objs next_oid cmap idx reg wl cuser fst snd cg members owner obj_insert obj_remove obj_set_owner] in *.
+Ltac red_g := cbn [objs next_oid cmap idx reg wl cuser fst snd cg members owner jacl pacl racl targets retarget obj_insert obj_remove obj_set_owner obj_set_acl empty_obj] in *.
 
 (* split on the test that decides the result of a step function *)
 Ltac hd1 :=
@@ -40,7 +40,7 @@ Ltac hd1 :=
   | |- context [snd (match ?x with _ => _ end)] => destruct x eqn:?
   end; cbn [fst snd].
 Ltac unf_steps := unfold join_start, join_locked, join_finish, leave_start, leave_locked, leave_after_n1, leave_after_n2, leave_end,
-                         bcast_lookup, bcast_read, members_read; cbv beta iota zeta.
+                         bcast_lookup, bcast_read, members_read, set_acl_locked, get_acl_read; cbv beta iota zeta.
 
 (* dropping a task, cancelling a connection's tasks: only locks change *)
 Lemma release_frame g k :
@@ -83,21 +83,8 @@ Section Subs.
 
   Lemma subs_seg g p ok hint : P g -> P (fst (fst (seg cf t tc me g p ok hint))).
   Proof.
-    intro H. destruct p as [[]| | | | | | | | |]; cbn [seg].
-    - unfold join_start. repeat hd1; try apply subs_join_locked; leaf H.
-    - unf_steps. repeat hd1; leaf H.
-    - unf_steps. repeat hd1; leaf H.
-    - unf_steps. repeat hd1; leaf H.
-    - leaf H.
-    - hd1; [apply subs_join_locked|]; leaf H.
-    - unf_steps. rewrite He. cbv beta iota zeta. repeat hd1; leaf H.
-    - unf_steps. repeat hd1; leaf H.
-    - unf_steps. repeat hd1; leaf H.
-    - unf_steps. repeat hd1; leaf H.
-    - unf_steps. repeat hd1; leaf H.
-    - unf_steps. repeat hd1; leaf H.
-    - unf_steps. repeat hd1; leaf H.
-    - leaf H.
+    intro H. destruct p as [[]| | | | | | | | | | |]; cbn [seg]; unfold join_start; repeat hd1;
+      first [ apply subs_join_locked; leaf H | unf_steps; rewrite ?He; cbv beta iota zeta; repeat hd1; leaf H ].
   Qed.
 End Subs.
 
@@ -112,21 +99,8 @@ Section Mem.
 
   Lemma mem_seg g p ok hint : P g -> P (fst (fst (seg cf t tc me g p ok hint))).
   Proof.
-    intro H. destruct p as [[]| | | | | | | | |]; cbn [seg].
-    - unfold join_start. repeat hd1; try apply mem_join_locked; leaf H.
-    - unf_steps. repeat hd1; leaf H.
-    - unf_steps. repeat hd1; leaf H.
-    - unf_steps. repeat hd1; leaf H.
-    - leaf H.
-    - hd1; [apply mem_join_locked|]; leaf H.
-    - unf_steps. repeat hd1; leaf H.
-    - unf_steps. repeat hd1; leaf H.
-    - unf_steps. repeat hd1; leaf H.
-    - unf_steps. repeat hd1; leaf H.
-    - unf_steps. repeat hd1; leaf H.
-    - unf_steps. repeat hd1; leaf H.
-    - unf_steps. repeat hd1; leaf H.
-    - leaf H.
+    intro H. destruct p as [[]| | | | | | | | | | |]; cbn [seg]; unfold join_start; repeat hd1;
+      first [ apply mem_join_locked; leaf H | unf_steps; repeat hd1; leaf H ].
   Qed.
 End Mem.
 
@@ -138,7 +112,7 @@ Section Frame.
 
   Lemma frame_seg g p ok hint : P g (fst (fst (seg cf t tc me g p ok hint))).
   Proof.
-    destruct p as [[]| | | | | | | | |]; cbn [seg]; unf_steps; repeat hd1; rest_split; unf_set; red_g; auto.
+    destruct p as [[]| | | | | | | | | | |]; cbn [seg]; unf_steps; repeat hd1; rest_split; unf_set; red_g; auto.
   Qed.
 End Frame.
 
@@ -303,13 +277,66 @@ Ltac outs tac :=
   | |- Forall _ (events _ _ _ _ _ _ _) => tac
   end.
 
+(* ---------- C01/C03: the cached delivery list ---------- *)
+Definition Pall {A} (Q : A -> Prop) (f : N -> A) : Prop := forall x, Q (f x).
+Lemma Pall_upd {A} (Q : A -> Prop) f k v : Pall Q f -> Q v -> Pall Q (upd f k v).
+Proof. intros H Hv x. unfold upd. destruct (x =? k); auto. Qed.
+
+Definition tgt_ok (b : cobj) : Prop := targets b = filter (allowed (racl b)) (members b).
+Ltac tleaf H := rest_split; unf_set; red_g; repeat (apply Pall_upd; [|unfold tgt_ok; first [reflexivity|apply H]]); try exact H.
+
+Section Tgt.
+  Variable cf : ccfg.
+  Variables (t : tid) (tc : option conn) (me : user).
+  Notation P g := (Pall tgt_ok (objs g)).
+
+  Lemma tgt_join_locked g ch o created ob id : P g -> P (fst (fst (join_locked cf t tc me g ch o created ob id))).
+  Proof. intro H. unf_steps. repeat hd1; tleaf H. Qed.
+
+  Lemma tgt_seg g p ok hint : P g -> P (fst (fst (seg cf t tc me g p ok hint))).
+  Proof.
+    intro H. destruct p as [[]| | | | | | | | | | |]; cbn [seg]; unfold join_start; repeat hd1;
+      first [ apply tgt_join_locked; tleaf H | unf_steps; repeat hd1; tleaf H ].
+  Qed.
+End Tgt.
+
+Lemma tgt_cstep cf s e : Pall tgt_ok (objs (cg s)) -> Pall tgt_ok (objs (cg (fst (cstep cf s e)))).
+Proof.
+  intro H. destruct e as [c u ex|c r|t ok hint|c hint|t]; unfold cstep; cbv zeta.
+  - destruct (cuser (cg s) c); [exact H|]. destruct (ex && _); exact H.
+  - destruct (cuser (cg s) c); exact H.
+  - destruct (tlookup t (tasks s)) as [k|]; [|exact H].
+    pose proof (tgt_seg cf t (t_conn k) (t_me k) (cg s) (t_pc k) ok hint H) as Hs.
+    destruct (seg cf t (t_conn k) (t_me k) (cg s) (t_pc k) ok hint) as [[g' p] os]. exact Hs.
+  - destruct (cuser (cg s) c) as [u|]; [|exact H].
+    destruct (fold_frame c (tasks s) (cg s)) as (Ho&_&_&_).
+    match type of Ho with objs ?x = _ => set (g1 := x) in * end.
+    destruct (isnil _); cbn [fst cg]; unf_set; red_g; rewrite Ho; exact H.
+  - destruct (tlookup t (tasks s)) as [k|]; [|exact H]. destruct (t_conn k); [|exact H]. cbn [fst cg].
+    destruct (release_frame (cg s) k) as (Ho&_&_&_). rewrite Ho. exact H.
+Qed.
+
+(* C01/C03: the cached delivery list is, in every reachable state, the member list filtered by the read allow-list *)
+Theorem conc_targets_cache cf es o :
+  let g := cg (cstate_after cf es) in
+  targets (objs g o) = filter (allowed (racl (objs g o))) (members (objs g o)).
+Proof.
+  cbv zeta. revert o. unfold cstate_after.
+  apply (crun_inv cf (fun s => Pall tgt_ok (objs (cg s)))).
+  - intros s e. apply tgt_cstep.
+  - intro x. reflexivity.
+Qed.
+
 (* C01 *)
+Definition bcast_pc (p : pc) (ch : chan) (payload : N) (o : oid) : Prop :=
+  (exists id, p = PStart (RBcast ch payload id)) \/ (exists id, p = PBcastGate ch payload id)
+  \/ (exists id, p = PBcastWait ch o payload id).
+
 Definition msg_ok (g : gst) (tc : option conn) (me : user) (p : pc) (x : cout) : Prop :=
   match x with
   | OMsg c ch from payload =>
-      from = me /\ exists o, In me (members (objs g o)) /\ In c (conns_of g (members (objs g o)) tc) /\
-        ((exists id, p = PStart (RBcast ch payload id)) \/ (exists id, p = PBcastGate ch payload id)
-         \/ (exists id, p = PBcastWait ch o payload id))
+      from = me /\ exists o, In me (members (objs g o)) /\ allowed (pacl (objs g o)) me = true /\
+        In c (conns_of g (targets (objs g o)) tc) /\ bcast_pc p ch payload o
   | _ => True
   end.
 
@@ -317,49 +344,34 @@ Section Msg.
   Variable cf : ccfg.
   Variables (t : tid) (tc : option conn) (me : user).
 
-  Lemma msg_events g0 p g ts ex k ch n own : Forall (msg_ok g0 tc me p) (events g ts ex k ch n own).
-  Proof. unfold events. outs idtac. Qed.
-
   Lemma msg_bcast_read g p ch o payload id :
-    ((exists id, p = PStart (RBcast ch payload id)) \/ (exists id, p = PBcastGate ch payload id)
-         \/ (exists id, p = PBcastWait ch o payload id)) ->
-    Forall (msg_ok g tc me p) (snd (bcast_read tc me g ch o payload id)).
+    bcast_pc p ch payload o -> Forall (msg_ok g tc me p) (snd (bcast_read tc me g ch o payload id)).
   Proof.
     intro Hp. unfold bcast_read. cbv zeta. destruct (negb (mem me (members (objs g o)))) eqn:E; cbn [snd]; [outs idtac|].
     apply negb_false_iff in E. apply mem_In in E.
+    destruct (negb (allowed (pacl (objs g o)) me)) eqn:Ea; cbn [snd]; [outs idtac|]. apply negb_false_iff in Ea.
     apply Forall_app. split; [|outs idtac].
     apply Forall_forall. intros x Hx. apply in_map_iff in Hx. destruct Hx as (c&<-&Hc). cbn [msg_ok].
     split; [reflexivity|]. exists o. auto.
   Qed.
 
   Lemma msg_bcast_lookup g p ch payload id :
-    (forall o, (exists id, p = PStart (RBcast ch payload id)) \/ (exists id, p = PBcastGate ch payload id)
-         \/ (exists id, p = PBcastWait ch o payload id)) ->
-    Forall (msg_ok g tc me p) (snd (bcast_lookup tc me g ch payload id)).
+    (forall o, bcast_pc p ch payload o) -> Forall (msg_ok g tc me p) (snd (bcast_lookup tc me g ch payload id)).
   Proof.
     intro Hp. unfold bcast_lookup. repeat hd1; [apply msg_bcast_read; apply Hp| |]; outs idtac.
   Qed.
 
   Lemma msg_join_locked g0 p g ch o created ob id : Forall (msg_ok g0 tc me p) (snd (join_locked cf t tc me g ch o created ob id)).
-  Proof. unf_steps. repeat hd1; outs ltac:(apply msg_events). Qed.
+  Proof. unf_steps. repeat hd1; outs ltac:(unfold events). Qed.
 
   Lemma msg_seg g p ok hint : Forall (msg_ok g tc me p) (snd (seg cf t tc me g p ok hint)).
   Proof.
-    destruct p as [[]| | | | | | | | |]; cbn [seg].
-    - unfold join_start. repeat hd1; try apply msg_join_locked; outs idtac.
-    - unf_steps. repeat hd1; outs ltac:(apply msg_events).
-    - hd1; [outs idtac|]. apply msg_bcast_lookup. intros o0. left. eexists. reflexivity.
-    - unf_steps. repeat hd1; outs ltac:(apply msg_events).
-    - outs idtac.
-    - hd1; [apply msg_join_locked|outs idtac].
-    - unf_steps. repeat hd1; outs ltac:(apply msg_events).
-    - unf_steps. repeat hd1; outs ltac:(apply msg_events).
-    - unf_steps. repeat hd1; outs ltac:(apply msg_events).
-    - unf_steps. repeat hd1; outs ltac:(apply msg_events).
-    - hd1; [|outs idtac]. apply msg_bcast_lookup. intros o0. right. left. eexists. reflexivity.
-    - hd1; [|outs idtac]. apply msg_bcast_read. right. right. eexists. reflexivity.
-    - unf_steps. repeat hd1; outs ltac:(apply msg_events).
-    - outs idtac.
+    destruct p as [[]| | | | | | | | | | |]; cbn [seg]; unfold join_start; repeat hd1;
+      first [ apply msg_join_locked
+            | apply msg_bcast_lookup; intros o0; first [left; eexists; reflexivity|right; left; eexists; reflexivity]
+            | apply msg_bcast_read; right; right; eexists; reflexivity
+            | unfold leave_start, leave_locked, leave_after_n1, leave_after_n2, leave_end, join_finish, members_read,
+                     set_acl_locked, get_acl_read; cbv beta iota zeta; repeat hd1; outs ltac:(unfold events) ].
   Qed.
 End Msg.
 
@@ -369,6 +381,7 @@ Theorem conc_message_confinement cf es e c ch from payload :
   let s := cstate_after cf es in
   In (OMsg c ch from payload) (snd (cstep cf s e)) ->
   exists u o, cuser (cg s) c = Some u /\ In u (members (objs (cg s) o)) /\ In from (members (objs (cg s) o)) /\
+              allowed (racl (objs (cg s) o)) u = true /\ allowed (pacl (objs (cg s) o)) from = true /\
               (exists t k ok hint, e = ERun t ok hint /\ In (t, k) (tasks s) /\ t_me k = from /\ t_conn k <> Some c /\
                  ((exists id, t_pc k = PStart (RBcast ch payload id)) \/ (exists id, t_pc k = PBcastGate ch payload id)
                   \/ (exists id, t_pc k = PBcastWait ch o payload id))).
@@ -381,8 +394,10 @@ Proof.
     pose proof (msg_seg cf t (t_conn k) (t_me k) (cg s) (t_pc k) ok hint) as Hs.
     destruct (seg cf t (t_conn k) (t_me k) (cg s) (t_pc k) ok hint) as [[g' p] os]. cbn [snd] in *.
     rewrite Forall_forall in Hs. apply Hs in H. cbn [msg_ok] in H.
-    destruct H as (-> & o & Hme & Hc & Hp). apply conns_of_In in Hc. destruct Hc as (u & Hu & Hc & Hx).
-    exists u, o. split; [apply HR; exact Hc|]. split; [exact Hu|]. split; [exact Hme|].
+    destruct H as (-> & o & Hme & Hpa & Hc & Hp). apply conns_of_In in Hc. destruct Hc as (u & Hu & Hc & Hx).
+    pose proof (conc_targets_cache cf es o) as Ht. cbv zeta in Ht. fold s in Ht. rewrite Ht in Hu.
+    apply filter_In in Hu. destruct Hu as [Hu Hra].
+    exists u, o. split; [apply HR; exact Hc|]. split; [exact Hu|]. split; [exact Hme|]. split; [exact Hra|]. split; [exact Hpa|].
     exists t, k, ok, hint. split; [reflexivity|]. split; [apply tlookup_In; exact Hk|]. auto.
   - destruct (cuser (cg s) c0); [|destruct H]. destruct (isnil _); destruct H.
   - destruct (tlookup t (tasks s)) as [k|]; [|destruct H]. destruct (t_conn k); destruct H.
@@ -407,21 +422,9 @@ Section Ev.
 
   Lemma ev_seg g p ok hint : Forall (ev_ok g) (snd (seg cf t tc me g p ok hint)).
   Proof.
-    destruct p as [[]| | | | | | | | |]; cbn [seg].
-    - unfold join_start. repeat hd1; try (apply ev_join_locked; reflexivity); outs idtac.
-    - unf_steps. repeat hd1; outs ltac:(apply ev_events; rest_split; reflexivity).
-    - unf_steps. repeat hd1; outs idtac.
-    - unf_steps. repeat hd1; outs idtac.
-    - outs idtac.
-    - hd1; [apply ev_join_locked; reflexivity|outs idtac].
-    - unf_steps. repeat hd1; outs ltac:(apply ev_events; rest_split; reflexivity).
-    - unf_steps. repeat hd1; outs ltac:(apply ev_events; rest_split; reflexivity).
-    - unf_steps. repeat hd1; outs ltac:(apply ev_events; rest_split; reflexivity).
-    - unf_steps. repeat hd1; outs ltac:(apply ev_events; rest_split; reflexivity).
-    - unf_steps. repeat hd1; outs idtac.
-    - unf_steps. repeat hd1; outs idtac.
-    - unf_steps. repeat hd1; outs idtac.
-    - outs idtac.
+    destruct p as [[]| | | | | | | | | | |]; cbn [seg]; unfold join_start; repeat hd1;
+      first [ apply ev_join_locked; reflexivity
+            | unf_steps; repeat hd1; outs ltac:(apply ev_events; rest_split; reflexivity) ].
   Qed.
 End Ev.
 
@@ -442,4 +445,371 @@ Proof.
     exists u. split; [apply HR; exact Hc|exact Hc].
   - destruct (cuser (cg s) c0); [|destruct H]. destruct (isnil _); destruct H.
   - destruct (tlookup t (tasks s)) as [k|]; [|destruct H]. destruct (t_conn k); destruct H.
+Qed.
+
+(* ---------- C03: allow-list reports and updates ---------- *)
+Definition aclrep_ok (g : gst) (tc : option conn) (me : user) (p : pc) (x : cout) : Prop :=
+  match x with
+  | OAcl c id l =>
+      tc = Some c /\ exists ch o ty,
+        ((p = PStart (RGetAcl ch ty id) /\ cmap g ch = Some o) \/ p = PGetAclWait ch o ty id) /\
+        l = acl_of (objs g o) ty /\ is_owner (objs g o) me = true
+  | _ => True
+  end.
+
+(* no acknowledgement of kind K *)
+Definition no_ack (K : N) (x : cout) : Prop :=
+  match x with OAck _ _ k => if k =? K then False else True | _ => True end.
+
+Definition set_acl_post (g g' : gst) (o : oid) (ty : N) (adding : bool) (us : list user) : Prop :=
+  acl_of (objs g' o) ty = acl_update (acl_of (objs g o) ty) us adding /\
+  (forall ty', acl_class ty' <> acl_class ty -> acl_of (objs g' o) ty' = acl_of (objs g o) ty') /\
+  members (objs g' o) = members (objs g o) /\ owner (objs g' o) = owner (objs g o) /\
+  (forall o', o' <> o -> objs g' o' = objs g o').
+
+Definition sack_ok (g : gst) (tc : option conn) (me : user) (p : pc) (g' : gst) (x : cout) : Prop :=
+  match x with
+  | OAck c id k =>
+      if k =? A_SETACL then
+        tc = Some c /\ exists ch o ty adding us,
+          ((p = PStart (RSetAcl ch ty adding us id) /\ cmap g ch = Some o) \/ p = PSetAclWait ch o ty adding us id) /\
+          is_owner (objs g o) me = true /\ set_acl_post g g' o ty adding us
+      else True
+  | _ => True
+  end.
+
+Lemma no_ack_sack g tc me p g' x : no_ack A_SETACL x -> sack_ok g tc me p g' x.
+Proof. destruct x; cbn [no_ack sack_ok]; try (intros; exact I). destruct (kind =? A_SETACL); [contradiction|auto]. Qed.
+
+Lemma upd_same {A} (f : N -> A) k v : upd f k v k = v.
+Proof. unfold upd. rewrite N.eqb_refl. reflexivity. Qed.
+Lemma upd_other {A} (f : N -> A) k v x : x <> k -> upd f k v x = f x.
+Proof. intro H. unfold upd. apply N.eqb_neq in H. rewrite H. reflexivity. Qed.
+
+Lemma acl_of_set_same b ty a : acl_of (obj_set_acl b ty a) ty = a.
+Proof. unfold acl_of, obj_set_acl, retarget. cbn [jacl pacl racl]. destruct (ty =? 1); [reflexivity|]. destruct (ty =? 2); reflexivity. Qed.
+Lemma acl_of_set_other b ty a ty' : acl_class ty' <> acl_class ty -> acl_of (obj_set_acl b ty a) ty' = acl_of b ty'.
+Proof.
+  unfold acl_class, acl_of, obj_set_acl, retarget. cbn [jacl pacl racl].
+  destruct (ty =? 1); destruct (ty' =? 1); destruct (ty =? 2); destruct (ty' =? 2); intro H; try reflexivity; exfalso; apply H; reflexivity.
+Qed.
+
+Section Acl.
+  Variable cf : ccfg.
+  Variables (t : tid) (tc : option conn) (me : user).
+
+  Lemma rep_get_acl_read g p o ty id :
+    (exists ch, (p = PStart (RGetAcl ch ty id) /\ cmap g ch = Some o) \/ p = PGetAclWait ch o ty id) ->
+    Forall (aclrep_ok g tc me p) (snd (get_acl_read tc me g o ty id)).
+  Proof.
+    intros [ch Hp]. unfold get_acl_read. cbv zeta. destruct (negb (is_owner (objs g o) me)) eqn:E; cbn [snd]; [outs idtac|].
+    apply negb_false_iff in E. destruct tc as [c|]; [|constructor]. constructor; [|constructor].
+    cbn [aclrep_ok]. split; [reflexivity|]. exists ch, o, ty. auto.
+  Qed.
+
+  Lemma rep_join_locked g0 p g ch o created ob id : Forall (aclrep_ok g0 tc me p) (snd (join_locked cf t tc me g ch o created ob id)).
+  Proof. unf_steps. repeat hd1; outs ltac:(unfold events). Qed.
+
+  Lemma rep_seg g p ok hint : Forall (aclrep_ok g tc me p) (snd (seg cf t tc me g p ok hint)).
+  Proof.
+    destruct p as [[]| | | | | | | | | | |]; cbn [seg]; unfold join_start; repeat hd1;
+      first [ apply rep_join_locked
+            | apply rep_get_acl_read; eexists; first [left; split; [reflexivity|eassumption] | right; reflexivity]
+            | unfold leave_start, leave_locked, leave_after_n1, leave_after_n2, leave_end, join_finish, members_read,
+                     set_acl_locked, bcast_lookup, bcast_read; cbv beta iota zeta; repeat hd1; outs ltac:(unfold events) ].
+  Qed.
+
+  Lemma sack_set_acl_locked g p o ty adding us id :
+    (exists ch, (p = PStart (RSetAcl ch ty adding us id) /\ cmap g ch = Some o) \/ p = PSetAclWait ch o ty adding us id) ->
+    Forall (sack_ok g tc me p (fst (fst (set_acl_locked cf tc me g o ty adding us id))))
+           (snd (set_acl_locked cf tc me g o ty adding us id)).
+  Proof.
+    intros [ch Hp]. unfold set_acl_locked. cbv zeta. destruct (negb (is_owner (objs g o) me)) eqn:E; cbn [fst snd]; [outs idtac|].
+    apply negb_false_iff in E. destruct (c_max_clients cf <? _); cbn [fst snd]; [outs idtac|].
+    destruct tc as [c|]; [|constructor]. constructor; [|constructor].
+    cbn [sack_ok]. change (A_SETACL =? A_SETACL) with true. cbv iota. split; [reflexivity|]. exists ch, o, ty, adding, us.
+    split; [exact Hp|]. split; [exact E|]. unfold set_acl_post, put_obj, set_objs. cbn [objs]. rewrite upd_same.
+    split; [apply acl_of_set_same|]. split; [intros ty'; apply acl_of_set_other|]. split; [reflexivity|]. split; [reflexivity|].
+    intros o' Ho'. apply upd_other. exact Ho'.
+  Qed.
+
+  Lemma nack_join_locked K g ch o created ob id : K = A_SETACL -> Forall (no_ack K) (snd (join_locked cf t tc me g ch o created ob id)).
+  Proof. intros ->. unf_steps. repeat hd1; outs ltac:(unfold events). Qed.
+
+  Lemma sack_seg g p ok hint :
+    Forall (sack_ok g tc me p (fst (fst (seg cf t tc me g p ok hint)))) (snd (seg cf t tc me g p ok hint)).
+  Proof.
+    assert (nb : forall p' g' l, Forall (no_ack A_SETACL) l -> Forall (sack_ok g tc me p' g') l)
+      by (intros p' g' l Hl; eapply Forall_impl; [intros x Hx; apply no_ack_sack; exact Hx|exact Hl]).
+    destruct p as [[]| | | | | | | | | | |]; cbn [seg];
+      try solve [apply nb; unfold join_start; repeat hd1;
+           first [ apply nack_join_locked; reflexivity
+                 | unfold leave_start, leave_locked, leave_after_n1, leave_after_n2, leave_end, join_finish, members_read,
+                          get_acl_read, bcast_lookup, bcast_read; cbv beta iota zeta; repeat hd1; outs ltac:(unfold events) ]].
+    - destruct (cmap g ch) as [o|] eqn:Hc; [|outs idtac]. destruct (lock_free g o); [|outs idtac].
+      apply sack_set_acl_locked. exists ch. left. auto.
+    - destruct (lock_free g o); [|outs idtac]. apply sack_set_acl_locked. exists ch. right. reflexivity.
+  Qed.
+End Acl.
+
+(* C03: a reported allow-list is the list as it is at that very step, reported to the owner only *)
+Theorem conc_acl_report_is_current cf es e c id l :
+  let s := cstate_after cf es in
+  In (OAcl c id l) (snd (cstep cf s e)) ->
+  exists t k ok hint ch o ty, e = ERun t ok hint /\ In (t, k) (tasks s) /\ t_conn k = Some c /\
+    ((t_pc k = PStart (RGetAcl ch ty id) /\ cmap (cg s) ch = Some o) \/ t_pc k = PGetAclWait ch o ty id) /\
+    l = acl_of (objs (cg s) o) ty /\ is_owner (objs (cg s) o) (t_me k) = true.
+Proof.
+  intros s H.
+  destruct e as [c0 u ex|c0 r|t ok hint|c0 hint|t]; unfold cstep in H; cbv zeta in H.
+  - destruct (cuser (cg s) c0); [destruct H|]. destruct (ex && _); cbn [snd In] in H; destruct H as [H|[]]; discriminate.
+  - destruct (cuser (cg s) c0); destruct H.
+  - destruct (tlookup t (tasks s)) as [k|] eqn:Hk; [|destruct H].
+    pose proof (rep_seg cf t (t_conn k) (t_me k) (cg s) (t_pc k) ok hint) as Hs.
+    destruct (seg cf t (t_conn k) (t_me k) (cg s) (t_pc k) ok hint) as [[g' p] os]. cbn [snd] in *.
+    rewrite Forall_forall in Hs. apply Hs in H. cbn [aclrep_ok] in H.
+    destruct H as (Hc & ch & o & ty & Hp & Hl & Ho).
+    exists t, k, ok, hint, ch, o, ty. split; [reflexivity|]. split; [apply tlookup_In; exact Hk|]. auto.
+  - destruct (cuser (cg s) c0); [|destruct H]. destruct (isnil _); destruct H.
+  - destruct (tlookup t (tasks s)) as [k|]; [|destruct H]. destruct (t_conn k); destruct H.
+Qed.
+
+(* C03: an acknowledged update changes exactly the named list, by exactly the named entries; the other two lists, the
+   members and the owner stay; only the owner's update is acknowledged *)
+Theorem conc_set_acl_exact cf es t ok hint c id :
+  let s := cstate_after cf es in
+  let s' := fst (cstep cf s (ERun t ok hint)) in
+  In (OAck c id A_SETACL) (snd (cstep cf s (ERun t ok hint))) ->
+  exists k ch o ty adding us, In (t, k) (tasks s) /\ t_conn k = Some c /\
+    ((t_pc k = PStart (RSetAcl ch ty adding us id) /\ cmap (cg s) ch = Some o) \/ t_pc k = PSetAclWait ch o ty adding us id) /\
+    is_owner (objs (cg s) o) (t_me k) = true /\
+    acl_of (objs (cg s') o) ty = acl_update (acl_of (objs (cg s) o) ty) us adding /\
+    (forall ty', acl_class ty' <> acl_class ty -> acl_of (objs (cg s') o) ty' = acl_of (objs (cg s) o) ty') /\
+    members (objs (cg s') o) = members (objs (cg s) o) /\ owner (objs (cg s') o) = owner (objs (cg s) o) /\
+    (forall o', o' <> o -> objs (cg s') o' = objs (cg s) o').
+Proof.
+  intros s. unfold cstep. cbv zeta.
+  destruct (tlookup t (tasks s)) as [k|] eqn:Hk; [|intros []].
+  pose proof (sack_seg cf t (t_conn k) (t_me k) (cg s) (t_pc k) ok hint) as Hs.
+  destruct (seg cf t (t_conn k) (t_me k) (cg s) (t_pc k) ok hint) as [[g' p] os]. cbn [fst snd cg] in *. intro H.
+  rewrite Forall_forall in Hs. apply Hs in H. cbn [sack_ok] in H. change (A_SETACL =? A_SETACL) with true in H. cbv iota in H.
+  destruct H as (Hc & ch & o & ty & adding & us & Hp & Ho & Hpost).
+  exists k, ch, o, ty, adding, us. split; [apply tlookup_In; exact Hk|]. split; [exact Hc|]. split; [exact Hp|]. split; [exact Ho|].
+  exact Hpost.
+Qed.
+
+(* ---------- C03: who is added to a member set ---------- *)
+(* a relation between every object before and after *)
+Definition Rel (R : cobj -> cobj -> Prop) (f f' : oid -> cobj) : Prop := forall o, R (f o) (f' o).
+Lemma Rel_upd R f f' o v : Rel R f f' -> R (f o) v -> Rel R f (upd f' o v).
+Proof. intros H Hv x. unfold upd. destruct (N.eqb_spec x o); [subst; exact Hv|apply H]. Qed.
+
+Lemma In_add x n (l : list N) : In x (add n l) -> In x l \/ x = n.
+Proof. unfold add. destruct (mem n l); [auto|]. rewrite in_app_iff. cbn [In]. intros [H|[H|[]]]; auto. Qed.
+
+(* objects not yet handed out still have the default join list; the map and the parked allow-list updates
+   name only objects already handed out *)
+Definition fr_ok (g : gst) : Prop :=
+  (forall o, next_oid g <= o -> jacl (objs g o) = []) /\ (forall ch o, cmap g ch = Some o -> o < next_oid g).
+Definition pc_lt (n : N) (p : pc) : Prop := match p with PSetAclWait _ o _ _ _ _ => o < n | _ => True end.
+Definition no_saw (p : pc) : Prop := match p with PSetAclWait _ _ _ _ _ _ => False | _ => True end.
+Definition same_jacl (b b' : cobj) : Prop := jacl b' = jacl b.
+Definition quiet (g g' : gst) : Prop :=
+  Rel same_jacl (objs g) (objs g') /\ next_oid g' = next_oid g /\ (forall ch o, cmap g' ch = Some o -> cmap g ch = Some o).
+
+Lemma pc_lt_mono n m p : n <= m -> pc_lt n p -> pc_lt m p.
+Proof. destruct p; cbn [pc_lt]; auto. unfold oid in *. lia. Qed.
+Lemma no_saw_lt n p : no_saw p -> pc_lt n p.
+Proof. destruct p; cbn [pc_lt no_saw]; auto. contradiction. Qed.
+
+Lemma fr_quiet g g' : quiet g g' -> fr_ok g -> fr_ok g' /\ next_oid g <= next_oid g'.
+Proof.
+  intros (Hj&Hn&Hc) (HA&HB). unfold fr_ok. rewrite Hn. split; [split|lia].
+  - intros o Ho. rewrite (Hj o). apply HA. exact Ho.
+  - intros ch o Hm. apply HB with ch. apply Hc. exact Hm.
+Qed.
+
+Ltac cm_tac := let ch' := fresh "ch" in let o' := fresh "o" in let X := fresh "X" in
+  intros ch' o'; unfold upd; repeat match goal with |- context [if ?b then _ else _] => destruct b end;
+  intro X; first [discriminate X | exact X].
+Ltac qleaf := rest_split; unfold quiet; unf_set; red_g;
+  (split; [split; [repeat (apply Rel_upd; [|unfold same_jacl; reflexivity]); intro; reflexivity | split; [reflexivity | cm_tac]] | exact I]).
+
+Definition Rj (b b' : cobj) : Prop := forall n, In n (members b') -> In n (members b) \/ allowed (jacl b) n = true.
+Ltac rj_side := let n' := fresh "n" in let Hn := fresh "Hn" in
+  unfold Rj; red_g; intros n' Hn;
+  first [ contradiction Hn
+        | left; exact Hn
+        | apply In_del in Hn; left; apply Hn
+        | apply In_add in Hn; destruct Hn as [Hn| ->]; [left; exact Hn|right];
+          match goal with Ha : negb (allowed _ _) = false |- _ => apply negb_false_iff in Ha; exact Ha end ].
+Ltac rjleaf := rest_split; unf_set; red_g; repeat (apply Rel_upd; [|rj_side]); intros ? ? ?; left; assumption.
+
+Section Fresh.
+  Variable cf : ccfg.
+  Variables (t : tid) (tc : option conn) (me : user).
+
+  Lemma q_join_locked g ch o created ob id :
+    quiet g (fst (fst (join_locked cf t tc me g ch o created ob id))) /\ no_saw (snd (fst (join_locked cf t tc me g ch o created ob id))).
+  Proof. unf_steps. repeat hd1; qleaf. Qed.
+
+  Definition quiet_pc (p : pc) : Prop :=
+    match p with PStart (RJoin _ _ _) | PStart (RSetAcl _ _ _ _ _) | PSetAclWait _ _ _ _ _ _ => False | _ => True end.
+
+  Lemma quiet_pc_dec p : quiet_pc p \/ ~ quiet_pc p.
+  Proof. destruct p as [[]| | | | | | | | | | |]; cbn [quiet_pc]; tauto. Qed.
+
+  Lemma q_seg g p ok hint : quiet_pc p ->
+    quiet g (fst (fst (seg cf t tc me g p ok hint))) /\ no_saw (snd (fst (seg cf t tc me g p ok hint))).
+  Proof.
+    destruct p as [[]| | | | | | | | | | |]; intro Hq; try contradiction Hq; cbn [seg]; repeat hd1;
+      first [ apply q_join_locked | unf_steps; repeat hd1; qleaf ].
+  Qed.
+
+  Lemma fr_set_acl_locked g o ty adding us id : o < next_oid g -> fr_ok g ->
+    fr_ok (fst (fst (set_acl_locked cf tc me g o ty adding us id))) /\
+    next_oid (fst (fst (set_acl_locked cf tc me g o ty adding us id))) = next_oid g /\
+    no_saw (snd (fst (set_acl_locked cf tc me g o ty adding us id))).
+  Proof.
+    intros Ho (HA&HB). unfold set_acl_locked. cbv zeta. repeat hd1; unf_set; red_g; (split; [|split; [reflexivity|exact I]]);
+      try (split; assumption).
+    unfold fr_ok. red_g. split; [|exact HB]. intros o' Ho'. rewrite upd_other; [apply HA; exact Ho'|]. unfold oid in *. lia.
+  Qed.
+
+  Lemma fr_seg g p ok hint : fr_ok g -> pc_lt (next_oid g) p ->
+    fr_ok (fst (fst (seg cf t tc me g p ok hint))) /\ next_oid g <= next_oid (fst (fst (seg cf t tc me g p ok hint))) /\
+    pc_lt (next_oid (fst (fst (seg cf t tc me g p ok hint)))) (snd (fst (seg cf t tc me g p ok hint))).
+  Proof.
+    intros Hf Hp.
+    assert (Hq : forall g0 (r : step_res), fr_ok g0 -> quiet g0 (fst (fst r)) /\ no_saw (snd (fst r)) ->
+                 fr_ok (fst (fst r)) /\ next_oid g0 <= next_oid (fst (fst r)) /\ pc_lt (next_oid (fst (fst r))) (snd (fst r))).
+    { intros g0 r H0 [H1 H2]. destruct (fr_quiet _ _ H1 H0) as [H3 H4]. split; [exact H3|]. split; [exact H4|]. apply no_saw_lt. exact H2. }
+    assert (Hsa : forall o ty adding us id, o < next_oid g ->
+                 let r := set_acl_locked cf tc me g o ty adding us id in
+                 fr_ok (fst (fst r)) /\ next_oid g <= next_oid (fst (fst r)) /\ pc_lt (next_oid (fst (fst r))) (snd (fst r))).
+    { intros o ty adding us id Ho. cbv zeta. destruct (fr_set_acl_locked g o ty adding us id Ho Hf) as (H1&H2&H3).
+      split; [exact H1|]. rewrite H2. split; [lia|]. apply no_saw_lt. exact H3. }
+    destruct (quiet_pc_dec p) as [Hd|Hd]; [apply Hq; [exact Hf|apply q_seg; exact Hd]|].
+    destruct p as [[]| | | | | | | | | | |]; try (exfalso; apply Hd; exact I); cbn [seg].
+    - (* JOIN *) unfold join_start. destruct (cmap g ch) as [o|] eqn:Hc.
+      + destruct (lock_free g o); [apply Hq; [exact Hf|apply q_join_locked]|]. cbn [fst snd]. split; [exact Hf|]. split; [lia|exact I].
+      + cbv zeta. match goal with |- context [join_locked cf t tc me ?g1 _ _ _ _ _] => set (G1 := g1) end.
+        assert (H1 : fr_ok G1 /\ next_oid G1 = next_oid g + 1).
+        { destruct Hf as (HA&HB). subst G1. unfold fr_ok. unf_set. red_g. split; [split|reflexivity].
+          - intros o' Ho'. rewrite upd_other; [apply HA|]; unfold oid in *; lia.
+          - intros ch' o'. unfold upd. destruct (ch' =? ch).
+            + intro X. injection X as <-. unfold oid in *. lia.
+            + intro X. apply HB in X. unfold oid in *. lia. }
+        destruct H1 as [H1 H2]. destruct (Hq G1 (join_locked cf t tc me G1 ch (next_oid g) true ob id) H1 (q_join_locked _ _ _ _ _ _)) as (H3&H4&H5).
+        split; [exact H3|]. split; [|exact H5]. unfold oid in *. lia.
+    - (* SET-ACL *) destruct Hf as (HA&HB). destruct (cmap g ch) as [o|] eqn:Hc.
+      + destruct (lock_free g o); [apply Hsa; apply HB with ch; exact Hc|]. cbn [fst snd pc_lt].
+        split; [split; assumption|]. split; [lia|apply HB with ch; exact Hc].
+      + cbn [fst snd pc_lt]. split; [split; assumption|]. split; [lia|exact I].
+    - cbn [pc_lt] in Hp. destruct (lock_free g o); [apply Hsa; exact Hp|]. cbn [fst snd pc_lt]. split; [exact Hf|]. split; [lia|exact Hp].
+  Qed.
+
+  Lemma rj_join_locked g ch o created ob id : Rel Rj (objs g) (objs (fst (fst (join_locked cf t tc me g ch o created ob id)))).
+  Proof. unf_steps. repeat hd1; rjleaf. Qed.
+
+  Lemma rj_seg g p ok hint : fr_ok g -> Rel Rj (objs g) (objs (fst (fst (seg cf t tc me g p ok hint)))).
+  Proof.
+    intros (HA&_). destruct p as [[]| | | | | | | | | | |]; cbn [seg];
+      try solve [repeat hd1; first [ apply rj_join_locked | unf_steps; repeat hd1; rjleaf ]].
+    unfold join_start. destruct (cmap g ch) as [o|]; [destruct (lock_free g o); [apply rj_join_locked|rjleaf]|].
+    cbv zeta. match goal with |- context [join_locked cf t tc me ?g1 _ _ _ _ _] => set (G1 := g1) end.
+    pose proof (rj_join_locked G1 ch (next_oid g) true ob id) as H1.
+    intros o n Hn. apply H1 in Hn. subst G1. unf_set. red_g. unfold upd in Hn.
+    destruct (N.eqb_spec o (next_oid g)) as [->|Hne]; [|exact Hn].
+    red_g. right. rewrite HA; [reflexivity|lia].
+  Qed.
+End Fresh.
+
+Lemma release_frame2 g k : next_oid (release_of g k) = next_oid g /\ cmap (release_of g k) = cmap g.
+Proof. unfold release_of. destruct (holds (t_pc k)); unf_set; red_g; auto. Qed.
+
+Lemma fold_frame2 c (l : list (tid * task)) : forall g,
+  let g1 := fold_left (fun acc e => if of_conn c (snd e) then release_of acc (snd e) else acc) l g in
+  next_oid g1 = next_oid g /\ cmap g1 = cmap g.
+Proof.
+  induction l as [|e r IH]; intro g; cbn [fold_left]; [auto|].
+  specialize (IH (if of_conn c (snd e) then release_of g (snd e) else g)). cbv zeta in *.
+  destruct IH as (a&b). rewrite a, b. destruct (of_conn c (snd e)); [apply release_frame2|auto].
+Qed.
+
+Lemma fr_same g g' : objs g' = objs g -> next_oid g' = next_oid g -> cmap g' = cmap g -> fr_ok g -> fr_ok g'.
+Proof. intros Ho Hn Hc H. unfold fr_ok. rewrite Ho, Hn, Hc. exact H. Qed.
+
+Lemma tset_In t v l x : In x (tset t v l) -> In x l \/ snd x = v.
+Proof.
+  induction l as [|[a w] r IH]; cbn [tset]; [auto|]. destruct (t =? a); cbn [In].
+  - intros [<-|H]; [right; reflexivity|left; right; exact H].
+  - intros [<-|H]; [left; left; reflexivity|]. destruct (IH H); auto.
+Qed.
+
+Lemma settle_In t k p hint l x :
+  In x (settle t k p hint l) -> In x l \/ t_pc (snd x) = p \/ exists ch, t_pc (snd x) = PStart (RLeave ch None 0).
+Proof.
+  assert (Hs : forall p', In x (tset t (with_pc k p') l) -> In x l \/ t_pc (snd x) = p' \/ exists ch, t_pc (snd x) = PStart (RLeave ch None 0)).
+  { intros p' H. apply tset_In in H. destruct H as [H|H]; [left; exact H|right; left; rewrite H; reflexivity]. }
+  unfold settle. destruct p; try apply Hs.
+  assert (Hr : In x (tremove t l) -> In x l) by (unfold tremove; intro H; apply filter_In in H; apply H).
+  destruct (t_conn k); [intro H; left; apply Hr; exact H|]. destruct (t_rest k) as [|c0 r0]; [intro H; left; apply Hr; exact H|].
+  destruct (pick_next hint (c0 :: r0)) as [ch r]. intro H. apply tset_In in H.
+  destruct H as [H|H]; [left; exact H|right; right; exists ch; rewrite H; reflexivity].
+Qed.
+
+Definition SInv (s : cstate) : Prop :=
+  fr_ok (cg s) /\ forall t k, In (t, k) (tasks s) -> pc_lt (next_oid (cg s)) (t_pc k).
+
+Lemma sinv_cstep cf s e : SInv s -> SInv (fst (cstep cf s e)).
+Proof.
+  intros [Hf Ht]. unfold SInv. destruct e as [c u ex|c r|t ok hint|c hint|t]; unfold cstep; cbv zeta.
+  - destruct (cuser (cg s) c); [split; assumption|]. destruct (ex && _); [split; assumption|]. cbn [fst]. split; [|exact Ht].
+    cbn [cg]. eapply fr_same; [| | |exact Hf]; reflexivity.
+  - destruct (cuser (cg s) c); [|split; assumption]. cbn [fst]. split; [exact Hf|]. cbn [cg tasks]. intros t k H.
+    apply in_app_or in H. destruct H as [H|[H|[]]]; [apply Ht with t; exact H|]. injection H as <- <-. exact I.
+  - destruct (tlookup t (tasks s)) as [k|] eqn:Hk; [|split; assumption].
+    pose proof (fr_seg cf t (t_conn k) (t_me k) (cg s) (t_pc k) ok hint Hf (Ht t k (tlookup_In _ _ _ Hk))) as Hs.
+    destruct (seg cf t (t_conn k) (t_me k) (cg s) (t_pc k) ok hint) as [[g' p] os]. cbn [fst snd cg tasks] in *.
+    destruct Hs as (H1&H2&H3). split; [exact H1|]. intros t' k' H. apply settle_In in H. cbn [snd] in H.
+    destruct H as [H|[H|[ch H]]]; [|rewrite H; exact H3|rewrite H; exact I].
+    eapply pc_lt_mono; [exact H2|]. apply Ht with t'. exact H.
+  - destruct (cuser (cg s) c) as [u|]; [|split; assumption].
+    destruct (fold_frame c (tasks s) (cg s)) as (Ho&_&_&_). destruct (fold_frame2 c (tasks s) (cg s)) as (Hn&Hc).
+    match type of Ho with objs ?x = _ => set (g1 := x) in * end.
+    assert (Hfl : forall t k, In (t, k) (filter (fun e => negb (of_conn c (snd e))) (tasks s)) -> pc_lt (next_oid (cg s)) (t_pc k))
+      by (intros t k H; apply filter_In in H; apply Ht with t; apply H).
+    destruct (isnil _); cbn [fst cg tasks]; unf_set; red_g; (split; [eapply fr_same; [| | |exact Hf]; assumption|]); rewrite Hn.
+    + destruct (idx g1 u) as [|c1 r1]; [exact Hfl|]. destruct (pick_next hint (c1 :: r1)) as [ch r]. intros t k H.
+      apply in_app_or in H. destruct H as [H|[H|[]]]; [apply Hfl with t; exact H|]. injection H as <- <-. exact I.
+    + exact Hfl.
+  - destruct (tlookup t (tasks s)) as [k|]; [|split; assumption]. destruct (t_conn k); [|split; assumption]. cbn [fst cg tasks].
+    destruct (release_frame (cg s) k) as (Ho&_&_&_). destruct (release_frame2 (cg s) k) as (Hn&Hc).
+    split; [eapply fr_same; [| | |exact Hf]; assumption|]. rewrite Hn. intros t' k' H. unfold tremove in H. apply filter_In in H.
+    apply Ht with t'. apply H.
+Qed.
+
+Lemma sinv_reach cf es : SInv (cstate_after cf es).
+Proof.
+  unfold cstate_after. apply (crun_inv cf SInv).
+  - intros s e. apply sinv_cstep.
+  - split; [split|]; cbn.
+    + intros; reflexivity.
+    + intros ch o H. discriminate H.
+    + intros t k [].
+Qed.
+
+(* C03: an admitted JOIN was permitted by the join list at the step that inserted the member *)
+Theorem conc_join_respects_list cf es t ok hint o n :
+  let s := cstate_after cf es in
+  let s' := fst (cstep cf s (ERun t ok hint)) in
+  ~ In n (members (objs (cg s) o)) -> In n (members (objs (cg s') o)) ->
+  allowed (jacl (objs (cg s) o)) n = true.
+Proof.
+  intros s. cbv zeta. destruct (sinv_reach cf es) as [Hf _]. fold s in Hf. unfold cstep. cbv zeta.
+  destruct (tlookup t (tasks s)) as [k|]; [|intros H1 H2; contradiction].
+  pose proof (rj_seg cf t (t_conn k) (t_me k) (cg s) (t_pc k) ok hint Hf) as Hs.
+  destruct (seg cf t (t_conn k) (t_me k) (cg s) (t_pc k) ok hint) as [[g' p] os]. cbn [fst snd cg] in *.
+  intros H1 H2. destruct (Hs o n H2) as [H|H]; [contradiction|exact H].
 Qed.
